@@ -1,0 +1,29 @@
+//go:build verif
+
+package validator
+
+import (
+	"errors"
+	"os"
+	"strings"
+)
+
+// verifFault injects a failure at a pipeline stage boundary. It is only compiled with the `verif` build tag.
+// The fault is selected by the environment variable ACV_VERIF_FAULT=<stage>:<error|panic>, read at call time.
+func verifFault(stage string) error {
+	spec := os.Getenv("ACV_VERIF_FAULT")
+	if spec == "" {
+		return nil
+	}
+	parts := strings.SplitN(spec, ":", 2)
+	if len(parts) != 2 || parts[0] != stage {
+		return nil
+	}
+	switch parts[1] {
+	case "error":
+		return errors.New("verif: injected error at stage " + stage)
+	case "panic":
+		panic("verif: injected panic at stage " + stage)
+	}
+	return nil
+}
